@@ -12,3 +12,5 @@ NOT_DECIDED = "condition toggling histories (runtime)"
 def check(ctx):
     _framing.suspender(ctx)
     _framing.aux_pairing(ctx)
+    # suspension and resumption work through Framer.change/activate/reactivate/deactivate: their state rules (C05) are part of this property
+    _framing.outline_state(ctx)
